@@ -376,7 +376,7 @@ func isPanicCall(i ssa.Instruction) (bool, string) {
 	}
 	q := core.QualName(g)
 	if strings.HasPrefix(q, "(*log.Logger).Panic") || strings.HasPrefix(q, "(*log.Logger).Fatal") || strings.HasPrefix(q, "log.Panic") || strings.HasPrefix(q, "log.Fatal") || q == "os.Exit" {
-		return true, g.Name()
+		return true, cn(g)
 	}
 	return false, ""
 }
